@@ -13,6 +13,11 @@ import (
 // handleCEA handles Capabilities-Exchange-Answer messages.
 func handleCEA(sm *StateMachine, errc chan error) diam.HandlerFunc {
 	return func(c diam.Conn, m *diam.Message) {
+		if _, ok := smpeer.FromContext(c.Context()); ok {
+			// The handshake is over: ignore duplicate or late CEAs
+			// instead of closing or sending on errc again.
+			return
+		}
 		cea := new(smparser.CEA)
 		if err := cea.Parse(m, smparser.Client); err != nil {
 			errc <- err
